@@ -1016,6 +1016,12 @@ def _finalize_fairy(
                     and connection_record.fairy_ref is not None
                 ):
                     connection_record.checkin()
+                # the fairy no longer owns the record; detach it as the
+                # normal path does below, so that a later detach() or
+                # invalidate() through it cannot act on the record again
+                if fairy is not None:
+                    fairy.dbapi_connection = None  # type: ignore[assignment]
+                    fairy._connection_record = None
                 raise
         finally:
             if detach and is_gc_cleanup and dont_restore_gced:
